@@ -221,6 +221,20 @@ func Eval(c Case) (problems []string, planErr string, nstmts int) {
 		tt.AddColumns(schema.NewIntColumn("id", "integer"), schema.NewEnumColumn("mood", schema.EnumName("mood"), schema.EnumValues("a", "b"), schema.EnumSchema(other)))
 		changes = []schema.Change{&schema.AddTable{T: tt}}
 		wantErr = true
+	case "schemaless_tables":
+		// tables that are not attached to any schema (built by a program, not inspected): the requested
+		// qualifier applies to them all the same, in every statement kind.
+		x := schema.NewTable("x").AddColumns(schema.NewIntColumn("id", "int"), schema.NewIntColumn("n", "int"))
+		x.AddIndexes(schema.NewIndex("x_n").AddColumns(x.Columns[1]))
+		u := schema.NewTable("u").AddColumns(schema.NewIntColumn("uid", "int"))
+		changes = []schema.Change{
+			&schema.AddTable{T: u},
+			&schema.ModifyTable{T: x, Changes: []schema.Change{
+				&schema.AddColumn{C: schema.NewIntColumn("extra", "int")},
+				&schema.RenameIndex{From: schema.NewIndex("x_n_old"), To: x.Indexes[0]},
+				&schema.DropIndex{I: schema.NewIndex("idx_a").AddColumns(x.Columns[0])},
+			}},
+		}
 	case "fk_to_other_schema":
 		// a table of this schema with a foreign key to a table of another schema: written without the
 		// qualifier, the reference would name a table of this schema.
@@ -297,7 +311,7 @@ func cases(tier string) []Case {
 	for _, d := range []*dfu.Dialect{dfu.MySQL, dfu.Postgres} {
 		for _, q := range quals {
 			for _, m := range modes {
-				for _, k := range []string{"create_all", "drop_all", "two_schemas", "two_schemas_drop_modify", "enum_in_other_schema", "fk_to_other_schema", "add_schema", "drop_schema", "modify_schema"} {
+				for _, k := range []string{"create_all", "drop_all", "two_schemas", "two_schemas_drop_modify", "enum_in_other_schema", "fk_to_other_schema", "schemaless_tables", "add_schema", "drop_schema", "modify_schema"} {
 					cs = append(cs, Case{d.Name, k, nil, q, m})
 				}
 				es := dfu.Edits(d)
